@@ -49,6 +49,10 @@ def judge(ctx, program):
         for c, st in kids.items():
             if st not in FINAL:
                 msgs.append('block %s was left at %r while its child %s is %s' % (name, log[l_idx][3], c, st))
+        flags = log[l_idx + 1][4][2] if kids and len(log[l_idx + 1][4]) > 2 else {}
+        for c, done in flags.items():
+            if not done:
+                msgs.append('block %s was left at %r while `done` of its child %s is still false' % (name, log[l_idx][3], c))
         if any(st != 'SUCCESS' for st in kids.values()):
             nontrivial = True
         # how did the block end?
